@@ -247,6 +247,20 @@ type vLedger struct {
 	mockedLedger
 	w        *vWorld
 	evalFail map[uint64]int // round -> 1 protocol error, 2 eval panic, 3 other
+	started  bool
+}
+
+// pipelinedFetch reads firstRound := s.ledger.NextRound() once, before launching any worker: that
+// read is the start of the pipeline for the model (somebody else may have written blocks before it)
+func (m *vLedger) NextRound() basics.Round {
+	m.mu.Lock()
+	defer m.mu.Unlock()
+	lat := m.lastRound()
+	if !m.started {
+		m.started = true
+		m.w.log.add(vL(vSym("s"), uint64(lat)))
+	}
+	return lat + 1
 }
 
 func vAddErr(code int, r, lat basics.Round) error {
@@ -432,12 +446,29 @@ func vRunScenario(t *testing.T, sc *vScenario, w *vWorld) (line []interface{}, s
 			}
 		}()
 	}
+	// watchdog: a pipeline that does not return (deadlocked workers) is cancelled and reported
+	hung := false
+	bg.Add(1)
+	go func() {
+		defer bg.Done()
+		select {
+		case <-stop:
+		case <-time.After(time.Duration(vEnvInt("VERIF_C30_WATCHDOG_MS", 15000)) * time.Millisecond):
+			w.log.mu.Lock()
+			hung = true
+			w.log.ev = append(w.log.ev, vL(vSym("x")))
+			w.log.mu.Unlock()
+			s.cancel()
+		}
+	}()
 	err := s.pipelinedFetch(sc.seed)
 	close(stop)
 	bg.Wait()
 	s.cancel()
 	endk := 0
 	switch {
+	case hung:
+		endk = 9
 	case errors.Is(err, errCatchupBehindDeltas) || errors.Is(err, errCatchupWritingCatchpoint):
 		endk = 1
 	case errors.Is(err, errCatchupStopping):
@@ -479,6 +510,85 @@ func vRunScenario(t *testing.T, sc *vScenario, w *vWorld) (line []interface{}, s
 	return
 }
 
+
+// ---------------------------------------------------------------- fetchRound (syncCert) scenario
+// agreement holds the genuine certificate of round lat0+1 but not the block: Service.syncCert must
+// fetch exactly that block (hash named by the certificate, payset matching the header) and hand it
+// to EnsureBlock with agreement's certificate.
+func vRunCertScenario(t *testing.T, rnd *vRand, w *vWorld, maxR uint64, st map[string]int, forgeSalt *uint64) []interface{} {
+	lat0 := uint64(rnd.Intn(4))
+	r := lat0 + 1
+	npeers := 1 + rnd.Intn(3)
+	var rs []vResp
+	nb := 0
+	for k, nbad := 0, rnd.Intn(7); k < nbad; k++ {
+		kind := vBadKinds[rnd.Intn(len(vBadKinds))]
+		if kind == "noblock" {
+			if nb >= 3 {
+				kind = "err"
+			}
+			nb++
+		}
+		x := vBadResp(rnd, w, r, maxR, kind, forgeSalt)
+		if rnd.Intn(3) == 0 {
+			x.delay = time.Duration(rnd.Intn(800)) * time.Microsecond
+		}
+		w.respTerm(x)
+		rs = append(rs, x)
+		st["cert_resp_"+kind]++
+	}
+	rs = append(rs, vGood(w, r))
+	w.log = &vEvLog{}
+	w.script = map[uint64][]vResp{r: rs}
+	w.attempt = map[uint64]int{}
+	led := &vLedger{w: w, started: true}
+	for q := uint64(0); q <= lat0; q++ {
+		led.blocks = append(led.blocks, w.auth[q])
+	}
+	net := &httpTestPeerSource{}
+	for i := 0; i < npeers; i++ {
+		net.peers = append(net.peers, &vPeer{id: uint64(i), w: w})
+	}
+	cfg := config.GetDefaultLocal()
+	// the switches must not matter on this path: try them all
+	cfg.CatchupBlockValidateMode = rnd.Intn(4)
+	qlog := logging.NewLogger()
+	qlog.SetOutput(io.Discard)
+	qlog.SetLevel(logging.Panic)
+	s := MakeService(qlog, cfg, net, led, &vAuth{w: w}, nil, nil)
+	s.testStart()
+	a := w.auth[r]
+	done := make(chan struct{})
+	go func() {
+		defer close(done)
+		s.syncCert(&PendingUnmatchedCertificate{Cert: vCert(&a, a.Round(), true)})
+	}()
+	endk := 0
+	select {
+	case <-done:
+	case <-time.After(time.Duration(vEnvInt("VERIF_C30_WATCHDOG_MS", 15000)) * time.Millisecond):
+		endk = 9
+		s.cancel()
+		<-done
+	}
+	s.cancel()
+	w.log.add(vL(vSym("end"), endk))
+	var scr []interface{}
+	for _, x := range rs {
+		scr = append(scr, w.respTerm(x))
+	}
+	w.log.mu.Lock()
+	evs := append([]interface{}{}, w.log.ev...)
+	w.log.mu.Unlock()
+	flat := uint64(led.LastRound())
+	var fids []interface{}
+	for q := lat0 + 1; q <= flat; q++ {
+		fids = append(fids, w.idOf(led.blocks[q].Digest()))
+	}
+	st["cert_cases"]++
+	return vL(vSym("c30fr"), lat0, vL(r, w.idOf(a.Digest())), scr, evs, vL(vSym("final"), flat, fids))
+}
+
 // ---------------------------------------------------------------- generator
 func vDelay(rnd *vRand) time.Duration {
 	switch rnd.Intn(10) {
@@ -494,7 +604,7 @@ func vDelay(rnd *vRand) time.Duration {
 }
 
 var vBadKinds = []string{"err", "noblock", "garbage", "wrongRound", "swapCert", "certOtherDigest", "tamper", "tamperAdd",
-	"forgedGenCert", "forgedPair", "authForgedCert", "tamperForged", "futureRound", "pastRound"}
+	"forgedGenCert", "forgedPair", "authForgedCert", "tamperForged", "futureRound", "pastRound", "otherBlockCertThisRound"}
 
 // a bad answer to a request for round r
 func vBadResp(rnd *vRand, w *vWorld, r, maxR uint64, kind string, forgeSalt *uint64) vResp {
@@ -526,6 +636,8 @@ func vBadResp(rnd *vRand, w *vWorld, r, maxR uint64, kind string, forgeSalt *uin
 			p = w.auth[2]
 		}
 		rs.blk, rs.cert = p, vCert(&p, p.Round(), true)
+	case "otherBlockCertThisRound": // a real block of another round under a certificate that says "round r" and commits to it
+		rs.blk, rs.cert = o, vCert(&o, basics.Round(r), true)
 	case "swapCert": // the right block with the genuine certificate of another round
 		rs.blk, rs.cert = a, vCert(&o, o.Round(), true)
 	case "certOtherDigest": // certificate says round r but commits to another block
@@ -715,10 +827,20 @@ func TestVerifC30(t *testing.T) {
 	var forgeSalt uint64
 	t0 := time.Now()
 	for i := 0; i < n; i++ {
+		if i%8 == 7 {
+			out.Case(vRunCertScenario(t, rnd, w, uint64(maxN)+4, st, &forgeSalt)...)
+			continue
+		}
 		sc := vGenScenario(rnd, w, i, maxN, st, &forgeSalt)
 		line, cst := vRunScenario(t, sc, w)
 		for k, v := range cst {
 			st[k] += v
+		}
+		if st["end_9"] >= 2 {
+			// the pipeline deadlocked twice: report what we have instead of waiting for every case
+			out.Case(line...)
+			st["aborted_after_hangs"] = 1
+			break
 		}
 		if sc.det {
 			st["deterministic"]++
